@@ -194,6 +194,30 @@ class Subject:
         T.success = info.get("success")
         return self._finish(T)
 
+    def root_requiring(self, aidx):
+        """(Action object, descriptor) of flat action aidx re-built with
+        req_access=ROOT - Action objects are part of the step() interface."""
+        from nasim.envs import action as A
+        from nasim.envs.utils import AccessLevel
+        d = dict(self.descs[aidx])
+        d["req_access"] = 2
+        a = self.actions[aidx]
+        k = d["kind"]
+        R = AccessLevel.ROOT
+        if k == "exploit":
+            obj = A.Exploit(a.name, a.target, a.cost, a.service, os=a.os,
+                            access=a.access, prob=a.prob, req_access=R)
+        elif k == "privesc":
+            obj = A.PrivilegeEscalation(a.name, a.target, a.cost, a.access,
+                                        process=a.process, os=a.os,
+                                        prob=a.prob, req_access=R)
+        else:
+            cls = {"service_scan": A.ServiceScan, "os_scan": A.OSScan,
+                   "subnet_scan": A.SubnetScan,
+                   "process_scan": A.ProcessScan}[k]
+            obj = cls(a.target, a.cost, prob=a.prob, req_access=R)
+        return obj, d
+
     # ------------------------------------------------------------------
     def seed_for(self, aidx, succeed, rng=None, desc=None):
         d = desc or self.descs[aidx]
